@@ -247,21 +247,42 @@ theorem empty_bytes (C : Codecs) (a : Args) :
 
 /-! ## byte-order marks -/
 
-/-- Each of the five byte-order marks is recognised and stripped (for the UTF-16 marks: when the
-    following code unit exists and is not 00 00, which is how the code tells them from UTF-32LE). -/
+/-- Each of the five byte-order marks is recognised and stripped, for EVERY payload `p` — including
+    the empty one and a single byte (repaired). The only proviso is the one that tells UTF-16 from
+    UTF-32LE: a UTF-16 mark is not followed by the two bytes 00 00. -/
 theorem bom_spec (p : Bytes) :
     stripBom ([0xef, 0xbb, 0xbf] ++ p) = (p, some utf8) ∧
     stripBom ([0x00, 0x00, 0xfe, 0xff] ++ p) = (p, some utf32be) ∧
     stripBom ([0xff, 0xfe, 0x00, 0x00] ++ p) = (p, some utf32le) ∧
-    (∀ x y, (x, y) ≠ (0, 0) → stripBom ([0xfe, 0xff, x, y] ++ p) = (x :: y :: p, some utf16be)) ∧
-    (∀ x y, (x, y) ≠ (0, 0) → stripBom ([0xff, 0xfe, x, y] ++ p) = (x :: y :: p, some utf16le)) := by
+    (p.take 2 ≠ [0, 0] → stripBom ([0xfe, 0xff] ++ p) = (p, some utf16be)) ∧
+    (p.take 2 ≠ [0, 0] → stripBom ([0xff, 0xfe] ++ p) = (p, some utf16le)) := by
   refine ⟨by simp [stripBom], by simp [stripBom], by simp [stripBom], ?_, ?_⟩
-  · intro x y h
-    have : ¬(x = 0 ∧ y = 0) := fun ⟨a, b⟩ => h (by rw [a, b])
-    simp [stripBom, this]
-  · intro x y h
-    have : ¬(x = 0 ∧ y = 0) := fun ⟨a, b⟩ => h (by rw [a, b])
-    simp [stripBom, this]
+  · intro h
+    simp [stripBom, h]
+  · intro h
+    simp [stripBom, h]
+
+/-- An empty UTF-16 document that consists of its byte-order mark alone is the empty text under
+    UTF-16 (the mark is stripped and its encoding sniffed). -/
+theorem bom_only_utf16 :
+    stripBom [0xff, 0xfe] = ([], some utf16le) ∧ stripBom [0xfe, 0xff] = ([], some utf16be) ∧
+    ∀ x, stripBom [0xff, 0xfe, x] = ([x], some utf16le) ∧ stripBom [0xfe, 0xff, x] = ([x], some utf16be) := by
+  refine ⟨by decide, by decide, fun x => ?_⟩
+  have h := bom_spec [x]
+  exact ⟨h.2.2.2.2 (by simp), h.2.2.2.1 (by simp)⟩
+
+/-- Witness of the repaired defect: with the old `len(data) >= 4` test the same inputs kept their
+    mark and no encoding was sniffed (so they fell through to windows-1252, "ÿþ"); on four or more
+    bytes the old and the repaired function agree. -/
+theorem old_length_test_missed_short_utf16 :
+    stripBomOld [0xff, 0xfe] = ([0xff, 0xfe], none) ∧ stripBomOld [0xfe, 0xff] = ([0xfe, 0xff], none) ∧
+    (∀ x, stripBomOld [0xff, 0xfe, x] = ([0xff, 0xfe, x], none)) ∧
+    ∀ b : Bytes, 4 ≤ b.length → stripBomOld b = stripBom b := by
+  refine ⟨by decide, by decide, ?_, ?_⟩
+  · intro x
+    simp [stripBomOld]
+  · intro b hb
+    simp [stripBomOld, stripBom, hb]
 
 /-- Whatever `stripBom` does, what is decoded is a suffix of the input, and a name is sniffed only if
     bytes were removed. -/
@@ -295,6 +316,7 @@ theorem bom_first_candidate (n : Name) (user : List Name) (declared : Option Nam
   exact ⟨_, rfl⟩
 
 example : stripBom [0xff, 0xfe, 0x61, 0x00] = ([0x61, 0x00], some utf16le) := by decide
+example : stripBom [0xff, 0xfe] = ([], some utf16le) := by decide
 example : stripBom [0xff, 0xfe, 0x00, 0x00, 0x61, 0, 0, 0] = ([0x61, 0, 0, 0], some utf32le) := by decide
 
 /-! ## UTF-8 by default, and what the constructor adds -/
